@@ -2,9 +2,9 @@ package exec
 
 import (
 	"fmt"
-	"strings"
 	"go/token"
 	"go/types"
+	"strings"
 
 	"golang.org/x/tools/go/ssa"
 
